@@ -126,9 +126,10 @@ class CkptProblem(rc.Problem):
     def sample_kwargs(self, checkpoint_cb=None, resume_from=None, path=None, with_cadence=True):
         kw = super().sample_kwargs(checkpoint_cb, resume_from)
         case = self.case
-        for k_case, k_kw in (("target", "target_efficiency"), ("min_step", "min_step"), ("max_n_steps", "max_n_steps")):
+        for k_case, k_kw in (("target", "target_efficiency"), ("min_step", "min_step"), ("max_n_steps", "max_n_steps"),
+                             ("rate", "target_efficiency_rate")):
             if k_case in case:
-                kw[k_kw] = case[k_case]
+                kw[k_kw] = tuple(case[k_case]) if isinstance(case[k_case], list) else case[k_case]
         if path is not None:
             kw["checkpoint_path"] = path
             if with_cadence:
